@@ -78,12 +78,23 @@ def generate(R, tier):
         k = R.randint(1, n - 1)
     ebv = [[round(R.gauss(0, 1), 3) if R.random() < 0.3 else R.gauss(0, 1) for _ in range(2)] for _ in range(n)]
     mode = R.choice(["global", "Generator", "RandomState"]) if has_rng else "global"
+    # candidate set of a subset problem: every individual in index order, or an unsorted / partial set of them
+    space, rebound = None, None
+    if kind == "subset" and R.random() < 0.4:
+        space = list(range(n))
+        R.shuffle(space)
+        space = space[:R.randint(max(k, 1), n)]
+    if kind in ("real", "integer") and R.random() < 0.3:
+        # history: the bounds of an existing problem are changed through its public setters before it is solved
+        rebound = {"lo": 0.25 if kind == "real" else 1, "hi": 0.75 if kind == "real" else 2, "order": R.randrange(6), "via_setter": True}
+    if kind == "subset" and space is not None:
+        rebound = {"via_setter": R.random() < 0.4}
     script = []
     if name == "hc" and mode != "global":
         m = R.choice(["pass", "same", "first", "last"])
         if m != "pass":
             script = [{"method": "choice", "mode": m, "index": R.randrange(n)}]
-    return {"algo": name, "n": n, "k": k, "ebv": ebv, "obj_wt": R.choice([None, None, 1.0, -1.0, 2.5, -0.5]), "caps": ({"grp": [R.randint(0, 1) for _ in range(n)], "cap": [R.randint(0, 2), R.randint(0, 2)], "flag": [R.randint(0, 1) for _ in range(n)],
+    return {"algo": name, "n": n, "k": k, "space": space, "rebound": rebound, "ebv": ebv, "obj_wt": R.choice([None, None, 1.0, -1.0, 2.5, -0.5]), "caps": ({"grp": [R.randint(0, 1) for _ in range(n)], "cap": [R.randint(0, 2), R.randint(0, 2)], "flag": [R.randint(0, 1) for _ in range(n)],
                       "quota": (R.randint(0, k) if R.random() < 0.5 else None)}
                      if (kind == "subset" and R.random() < (0.6 if name in ("hc", "sorting_hc") else 0.2)) else None),
             "con": R.random() < 0.35, "eq": (name in ("hc", "sorting_hc", "ga.subset", "ga.real") and R.random() < 0.35), "ngen": R.randint(1, 4), "pop": R.choice([4, 6, 8, 12]),
@@ -91,6 +102,19 @@ def generate(R, tier):
 
 
 def shrink(sc):
+    if sc.get("rebound") and ALGOS[sc["algo"]][1] != "subset":
+        c = copy.deepcopy(sc)
+        c["rebound"] = None
+        yield c
+    if sc.get("space") is not None:
+        c = copy.deepcopy(sc)
+        c["space"] = None
+        c["rebound"] = None
+        yield c
+        if sorted(sc["space"]) != sc["space"]:
+            c = copy.deepcopy(sc)
+            c["space"] = sorted(sc["space"])
+            yield c
     if sc["script"]:
         c = copy.deepcopy(sc)
         c["script"] = []
@@ -116,13 +140,13 @@ def shrink(sc):
             c = copy.deepcopy(sc)
             c[key] = small
             yield c
-    if sc["n"] > 3 and not sc.get("caps"):
+    if sc["n"] > 3 and not sc.get("caps") and sc.get("space") is None:
         c = copy.deepcopy(sc)
         c["n"] -= 1
         c["ebv"] = c["ebv"][:-1]
         c["k"] = min(c["k"], c["n"])
         yield c
-    if sc["k"] > 1 and ALGOS[sc["algo"]][1] == "subset":
+    if sc["k"] > 1 and ALGOS[sc["algo"]][1] == "subset" and sc.get("space") is None:
         c = copy.deepcopy(sc)
         c["k"] -= 1
         yield c
@@ -184,8 +208,26 @@ def execute(sc):
     name = sc["algo"]
     cls, kind, nobj, has_rng, ga = ALGOS[name]
     ebv = numpy.array(sc["ebv"], dtype=float)
-    prob = world.ebv_problem(kind, ebv, nobj=nobj, ndecn=sc["k"] if kind == "subset" else None, con=sc["con"] and not sc.get("caps"), eq=sc.get("eq", False), obj_wt=sc.get("obj_wt"), caps=sc.get("caps") or False)
+    space, rb = sc.get("space"), sc.get("rebound")
     V, log, faults, probes = [], [], {}, {}
+    pkw = dict(nobj=nobj, ndecn=sc["k"] if kind == "subset" else None, con=sc["con"] and not sc.get("caps"), eq=sc.get("eq", False), obj_wt=sc.get("obj_wt"), caps=sc.get("caps") or False)
+    if kind == "subset" and space is not None and rb and rb.get("via_setter"):
+        prob = world.ebv_problem(kind, ebv, **pkw)
+        prob.decn_space = numpy.array(space, dtype=int)                # candidate set replaced on the existing problem
+        faults["candidate_set_replaced_via_setter"] = 1
+    else:
+        prob = world.ebv_problem(kind, ebv, space=space if kind == "subset" else None, **pkw)
+    if kind == "subset" and space is not None:
+        faults["candidate_set_unsorted" if sorted(space) != space else "candidate_set_partial"] = 1
+    if kind in ("real", "integer") and rb:
+        nvar = prob.ndecn
+        lo = numpy.repeat(rb["lo"], nvar) if kind == "real" else numpy.repeat(int(rb["lo"]), nvar)
+        hi = numpy.repeat(rb["hi"], nvar) if kind == "real" else numpy.repeat(int(rb["hi"]), nvar)
+        acts = [lambda: setattr(prob, "decn_space_lower", lo), lambda: setattr(prob, "decn_space_upper", hi), lambda: setattr(prob, "decn_space", numpy.stack([lo, hi]))]
+        for a in list(itertools.permutations(range(3)))[rb["order"] % 6]:
+            acts[a]()
+        faults["bounds_changed_via_setters"] = 1
+    ncand = len(space) if (kind == "subset" and space is not None) else sc["n"]
     C = cls.__name__ + ".minimize"
     kw = {}
     if ga:
@@ -223,7 +265,7 @@ def execute(sc):
             if not feas:
                 probes["no_feasible_member_no_solution_returned"] = 1
                 return _out(sc, V, log, faults, probes, False, g)
-        V.append(viol("optimiser-completes", C, "raises:%s|%s" % (type(e).__name__, "k=n" if sc["k"] == sc["n"] else "k<n"),
+        V.append(viol("optimiser-completes", C, "raises:%s|%s" % (type(e).__name__, "k=n" if sc["k"] == ncand else "k<n"),
                       "%s on %s problem (n=%d, k=%d, con=%s) raised %s: %s" % (name, kind, sc["n"], sc["k"], sc["con"], type(e).__name__, str(e)[:200])))
         return _out(sc, V, log, faults, probes, False, g)
     if g is not None:
@@ -272,7 +314,7 @@ def execute(sc):
                     return _out(sc, V, log, faults, probes, True, g)
     # exhaustive sorting optimiser: brute-force optimum of a separable single-objective problem
     if name == "sorting" and not sc["con"] and not sc.get("eq") and not sc.get("caps") and sc["n"] <= 10:
-        best = min(float(prob.evalfn(numpy.array(c))[0].sum()) for c in itertools.combinations(range(sc["n"]), sc["k"]))
+        best = min(float(prob.evalfn(numpy.array(c))[0].sum()) for c in itertools.combinations(space if space is not None else range(sc["n"]), sc["k"]))
         got = float(F[0].sum())
         if got > best + 1e-12 * (1 + abs(best)):
             V.append(viol("sorting-attains-optimum", C, "suboptimal", "objective %r, brute-force optimum over C(%d,%d) subsets is %r" % (got, sc["n"], sc["k"], best)))
@@ -302,6 +344,6 @@ def execute(sc):
 def _out(sc, V, log, faults, probes, ran, g):
     trace = "%s|con=%s%s%s|w%s|%s|%s|n%s|k%s" % (sc["algo"], sc["con"], "+eq" if sc.get("eq") else "", "+caps" if sc.get("caps") else "",
                                            "-" if (sc.get("obj_wt") or 1) < 0 else "+", sc["mode"], [r["mode"] for r in sc["script"]], "S" if sc["n"] <= 5 else "L",
-                                         "=n" if sc["k"] == sc["n"] else ("1" if sc["k"] == 1 else "m"))
+                                         ("=n" if sc["k"] == (len(sc["space"]) if sc.get("space") is not None else sc["n"]) else ("1" if sc["k"] == 1 else "m")) + ("|sp" if sc.get("space") is not None else "") + ("|rb" if sc.get("rebound") else ""))
     return {"violations": V, "log": log, "trace": trace, "nontrivial": ran, "faults": faults, "probes": probes,
             "sim": {"optimiser_runs": 1, "pymoo_generations": probes.get("generations_observed", 0)}}
